@@ -221,25 +221,22 @@ impl Model<Asn<Unresolved>> {
         iter: &mut Peekable<T>,
         delimiter: char,
     ) -> Result<String, ErrorKind> {
+        let open = iter.peek_or_err()?.location();
         iter.next_separator_eq_or_err(delimiter)?;
-        let token = iter.next_or_err()?;
 
-        if token.eq_separator(delimiter) {
-            // empty literal: the closing delimiter follows immediately
-            return Ok([delimiter, delimiter].iter().collect());
-        }
-
-        let first_text = token.text().unwrap_or_default();
         let mut string = String::from(delimiter);
-        string.push_str(first_text);
-        let mut prev_loc = Location::at(
-            token.location().line(),
-            token.location().column() + first_text.chars().count(),
-        );
+        // blanks between the tokens - also those right behind the opening and right before the
+        // closing delimiter - and separator characters are part of the literal
+        let mut prev_loc = Location::at(open.line(), open.column() + 1);
 
         loop {
             match iter.next_or_err()? {
-                t if t.eq_separator(delimiter) => break,
+                Token::Separator(loc, char) if char == delimiter => {
+                    for _ in prev_loc.column()..loc.column() {
+                        string.push(' ');
+                    }
+                    break;
+                }
                 Token::Text(loc, str) => {
                     for _ in prev_loc.column()..loc.column() {
                         string.push(' ');
@@ -265,7 +262,8 @@ impl Model<Asn<Unresolved>> {
     fn read_hex_or_bit_string_literal<T: Iterator<Item = Token>>(
         iter: &mut Peekable<T>,
     ) -> Result<String, ErrorKind> {
-        let mut string = Self::read_string_literal(iter, '\'')?;
+        // white-space within a bstring / hstring is not significant
+        let mut string = Self::read_string_literal(iter, '\'')?.replace(' ', "");
         match iter.next_text_eq_any_ignore_case_or_err(&["H", "B"])? {
             Token::Text(_, suffix) => string.push_str(&suffix),
             t => return Err(ErrorKind::UnexpectedToken(t)),
